@@ -14,7 +14,8 @@ RULE = ('the real ClangBinarySearchPass / ClangPass objects driven by the refere
         'missing report): all N <= NMAX x all required subsets (monotone) and random verdict sequences; oracle on the argv log: '
         '1 <= counter <= to-counter <= count last reported, sweeps tile 1..N under all-reject, same index and reported-minus-chunk '
         'after an accept, non-zero exit never changes the candidate, chosen --std is the last argmax; the range log is also '
-        'compared with the Coq cursor model; non-trivial = distinct (N, subset/verdicts/fault table)')
+        'compared with the Coq cursor model; non-trivial = distinct (N, subset/verdicts/fault table)'
+        ' Also: dependent instances (a removal takes the next k instances with it: clamped requests, warnings before the count line) under monotone tests and verdict sequences; the same pass object started on a second input with another best standard.')
 TRUSTED = ['hand-written model coq/Cursor/BinaryState.v + coq/Passes/ClangBin.v tied by this correspondence run to clangbinarysearch.py / clang.py',
            'the stand-in tools/standins/clang_delta replaces the real tool (Clang headers are not installed): tool behaviour is an oracle']
 ASSUMPTIONS = ['clang_delta itself (what an instance is, what it prints) is out of scope here: C14/C19 cover the C++ side statically']
